@@ -311,3 +311,16 @@ Proof.
   - intros [[]|H]; right; exact H.
   - intros [[E _]|H]; [discriminate E | right; exact H].
 Qed.
+
+(* ------------------------------------------------------------------ callback stop *)
+Theorem collect_s_no_stop ak gamma sc : forall ps st,
+  collect_s ak gamma sc st (map (fun p => (p, false)) ps) = collect ak gamma sc st ps.
+Proof.
+  induction ps as [|p r IH]; intros st; [reflexivity|].
+  cbn [map collect_s collect]. destruct (step_col ak gamma sc st p) as [st1 s]. rewrite IH. reflexivity.
+Qed.
+
+Theorem step_col_stopped_spec sc st :
+  cs_obs (step_col_stopped sc st) = cs_obs st /\ cs_start (step_col_stopped sc st) = cs_start st /\
+  cs_cur (step_col_stopped sc st) = fst (vstep1 sc (cs_cur st)).
+Proof. repeat split. Qed.
